@@ -16,7 +16,12 @@ RULE = ('generated specs biased to what flows through sets and dicts (several Om
         'spec, after running another backend on another spec} x two output directories; one subprocess per '
         '(spec, hash seed, history) reports a digest per output file and all digests of a (spec, backend) '
         'must coincide. non-trivial = spec has >=2 omitted callers on a type, custom annotations, >=2 '
-        'imports or a whitelist; distinct by (spec, backend).')
+        'imports or a whitelist; distinct by (spec, backend). histories (stateful): generated sequences of '
+        '4-12 steps executed in one process - each step compiles the spec, a later revision of it with the '
+        'same names, or an unrelated spec, and runs one configuration of one backend family into a '
+        'directory, optionally through the whitelist; finished API descriptions are garbage collected; every '
+        'step must write the bytes a fresh process writes for the same (spec, backend, whitelist).')
+TECHNIQUE = 'property-based testing (Hypothesis): differential runs across hash seeds, directories and generated process histories'
 ASSUMPTIONS = ['Backends that crash must crash identically; crashes themselves are judged by C09/C16/C17.']
 WORKER = os.path.join(VERIF_DIR, 'sv', 'c12_worker.py')
 
